@@ -46,8 +46,7 @@ def main():
     b = core.build_coq()
     vo = os.path.join(core.COQ, 'Properties', f'{pid}.vo')
     src = os.path.join(core.COQ, 'Properties', f'{pid}.v')
-    proofs_ok = b.ok or (os.path.exists(vo) and os.path.getmtime(vo) >= os.path.getmtime(src)
-                         and not _depends_on_failed(pid, b))
+    proofs_ok = b.ok or (os.path.exists(vo) and os.path.exists(src) and not _depends_on_failed(pid, b))
     theorems = []
     if proofs_ok:
         ok, theorems, tlog = core.theorem_report(pid)
@@ -89,16 +88,13 @@ def main():
 
 
 def _depends_on_failed(pid, b):
-    """After `make -k`, Properties/<pid>.vo may be stale if a dependency failed."""
-    if b.failed is None:
-        return True
+    """After `make -k`: is Properties/<pid>.vo (or anything it depends on) missing or stale?"""
     dep = os.path.join(core.COQ, '.Makefile.d')
     try:
         with open(dep) as f:
-            txt = f.read()
+            txt = f.read().replace('\\\n', ' ')
     except OSError:
         return True
-    # transitive closure over the dependency file
     deps = {}
     for line in txt.splitlines():
         if ':' not in line:
@@ -106,7 +102,7 @@ def _depends_on_failed(pid, b):
         lhs, rhs = line.split(':', 1)
         for t in lhs.split():
             if t.endswith('.vo'):
-                deps.setdefault(t, set()).update(x for x in rhs.split() if x.endswith(('.vo', '.v')))
+                deps.setdefault(t, set()).update(x for x in rhs.split() if x.endswith('.vo') or x.endswith('.v'))
     seen, todo = set(), [f'Properties/{pid}.vo']
     while todo:
         t = todo.pop()
@@ -114,7 +110,16 @@ def _depends_on_failed(pid, b):
             continue
         seen.add(t)
         todo.extend(deps.get(t, ()))
-    return b.failed in seen or b.failed.replace('.v', '.vo') in seen
+    for t in seen:
+        if t.endswith('.vo') and not t.startswith('/'):
+            vo = os.path.join(core.COQ, t)
+            v = vo[:-1]
+            if not os.path.exists(v):
+                continue  # stdlib / other library
+            if not os.path.exists(vo) or os.path.getmtime(vo) < os.path.getmtime(v):
+                b.failed = b.failed or t[:-1]
+                return True
+    return False
 
 
 if __name__ == '__main__':
